@@ -259,12 +259,23 @@ func atomicCell(v value) *value {
 }
 
 func (m *Machine) nowNs() *Term {
-	t := m.tt.Var(fmt.Sprintf("v_time_%d", m.timeN), 64)
-	m.timeN++
 	lo := m.tt.Const(64, 0)
 	if m.timeBase != nil {
 		lo = m.timeBase
 	}
+	// harness parameter CLOCK_BITS=b (optional) narrows the clock to [0,2^b) ns: a stated bound that
+	// keeps difference constraints over many instants cheap for the bit-vector solver. The instant is
+	// the zero-extension of a b-bit variable, so the upper bits are syntactically zero.
+	if b, ok := m.cfg.Params["CLOCK_BITS"]; ok && b > 0 && b < 61 {
+		t := m.tt.ZExt(m.tt.Var(fmt.Sprintf("v_time%d_%d", b, m.timeN), b), 64)
+		m.timeN++
+		m.addPC(m.tt.Cmp("bvule", lo, t))
+		m.timeBase = t
+		m.stats.Assumes[fmt.Sprintf("time.Now: instants are non-decreasing, in [0,2^%d) ns (CLOCK_BITS)", b)]++
+		return t
+	}
+	t := m.tt.Var(fmt.Sprintf("v_time_%d", m.timeN), 64)
+	m.timeN++
 	m.addPC(m.tt.Cmp("bvsle", lo, t))
 	m.addPC(m.tt.Cmp("bvslt", t, m.tt.Const(64, 1<<61)))
 	m.timeBase = t
